@@ -254,19 +254,23 @@ impl ImageMetadata {
         top: i32,
         inverse: bool,
     ) -> (u32, u32, i32, i32) {
+        // A header can express sides of 2^31 and more: mirror in 64 bits (the result is
+        // truncated like the former wrapping arithmetic of release builds).
+        let (left, top) = (left as i64, top as i64);
         let (left, top) = match self.orientation {
             1 => (left, top),
-            2 => (width as i32 - left - 1, top),
-            3 => (width as i32 - left - 1, height as i32 - top - 1),
-            4 => (left, height as i32 - top - 1),
+            2 => (width as i64 - left - 1, top),
+            3 => (width as i64 - left - 1, height as i64 - top - 1),
+            4 => (left, height as i64 - top - 1),
             5 => (top, left),
-            6 if inverse => (top, width as i32 - left - 1),
-            6 => (height as i32 - top - 1, left),
-            7 => (height as i32 - top - 1, width as i32 - left - 1),
-            8 if inverse => (height as i32 - top - 1, left),
-            8 => (top, width as i32 - left - 1),
+            6 if inverse => (top, width as i64 - left - 1),
+            6 => (height as i64 - top - 1, left),
+            7 => (height as i64 - top - 1, width as i64 - left - 1),
+            8 if inverse => (height as i64 - top - 1, left),
+            8 => (top, width as i64 - left - 1),
             _ => unreachable!(),
         };
+        let (left, top) = (left as i32, top as i32);
         let (width, height) = match self.orientation {
             1..=4 => (width, height),
             5..=8 => (height, width),
